@@ -216,7 +216,9 @@ def _int_unit_operand(e):
 
 def _viol(e, seed, key, label, kind, msg, eager_ok):
     f = {"head": lang.head(e), "config": label, "what": kind.split(":", 1)[1], "eager_agrees_with_reference": eager_ok}
-    f["int_unit_operand"] = _int_unit_operand(e)
+    from .c06 import _int_unit_operand as _unit6
+
+    f["int_unit_operand"] = _int_unit_operand(e) or _unit6(e)
     f["normalize_in_config"] = "normalize" in label
     return core.violation(
         key,
